@@ -234,6 +234,9 @@ def st_schedule(draw):
                         draw(st.sampled_from([0, 1, 2, 3, 5, 8]))])
         elif k == 10:
             ops.append(draw(st.sampled_from([["yield", 1], ["yield", 3], ["yield", 5], ["advance", 45], ["advance", 4000]])))
+        elif k == 11 and draw(st.integers(0, 3)) == 0:
+            # the next frame the relay tries to send on this connection is lost to a transient transport error
+            ops.append(["senderr", conn])
         elif k == 11 and draw(st.booleans()):
             # a REQ without any usable filter under an id of its own (answered EOSE, never registered), directly followed by
             # the CLOSE of another subscription
@@ -280,6 +283,7 @@ class Schedule(Sub):
             pool = rig.storage.query_pool if backend == "kv" else None
             alive = [True, True]
 
+            lost_frame = [False, False]   # a frame of this connection was dropped by the (simulated) transport
             last_req = [dict(), dict()]   # conn -> sub id (as sent, string ids only) -> frames seen when its latest REQ was fed
 
             def feed(ci, msg, turns=1):
@@ -347,6 +351,10 @@ class Schedule(Sub):
                     pool.release(op[1])
                 elif op[0] == "release":
                     rig.release_query_slots()
+                elif op[0] == "senderr" and alive[op[1]]:
+                    conns[op[1]].fail_sends = 1
+                    lost_frame[op[1]] = True
+                    labels.append("one-frame-lost-in-transport")
                 elif op[0] == "advance":
                     asyncio.get_running_loop()._voffset += op[1]   # time passes (any timer the relay armed may fire)
                     for _ in range(4):
@@ -392,6 +400,8 @@ class Schedule(Sub):
             for ci2, c2 in enumerate(conns):
                 if not alive[ci2] or c2.closed is not None or c2.task.done() or rig.stuck or viol:
                     continue
+                if lost_frame[ci2]:
+                    continue   # the lost frame may have been that EOSE; the probe below must still be answered
                 for sid, n_at in last_req[ci2].items():
                     if n_at is None:
                         continue
